@@ -652,6 +652,7 @@ where
                         .to_str()
                         .context(ParseSopAttributeSnafu)?
                         .to_string();
+                    meta.update_information_group_length();
                 }
             }
 
@@ -663,6 +664,7 @@ where
                         .to_str()
                         .context(ParseSopAttributeSnafu)?
                         .to_string();
+                    meta.update_information_group_length();
                 }
             }
 
